@@ -21,7 +21,10 @@ for l in added('lean/Main.lean'):
     if l.startswith('import') and l not in m:
         m = m.replace('\n\n/--', '\n' + l + '\n\n/--', 1) if False else m.replace('import MoPepGen.Driver.C10\n', 'import MoPepGen.Driver.C10\n' + l + '\n', 1)
     elif l.strip().startswith('|') and l not in m:
-        m = m.replace('  | _ => "bad-stream"', l + '\n  | _ => "bad-stream"', 1)
+        mm = re.match(r'\s*\| "(\w+)" :: args => (\S+) args', l)
+        l2 = f'  | "{mm.group(1)}" :: args => (st, {mm.group(2)} args)' if mm else l
+        if l2 not in m:
+            m = m.replace('  | _ => (st, "bad-stream")', l2 + '\n  | _ => (st, "bad-stream")', 1)
 open(f'{V}/lean/Main.lean', 'w').write(m)
 r = open(f'{V}/lean/MoPepGen.lean').read()
 for l in added('lean/MoPepGen.lean'):
